@@ -6,7 +6,8 @@
    event    = (0 g step) New | (1 g a c) Init | (2 g a c) Next | (3 g) Crash
               a = 0 StoreOk c | 1 StoreErrBefore | 2 StoreErrAfter c   (the scripted store's answer)
    out      = (kind value asked)   kind 0 nothing, 1 Init ok, 2 id, 3 the store's error,
-                                   4 "integer overflow" error, 5 anything else;
+                                   4 "integer overflow" error, 5 anything else, 6 the call
+                                   never returned (blocked on the generator's mutex for good);
                                    asked = 1 iff Storage.Incr was called during the event
    raws     = raw counter values fed to a store adapter's guard, gouts = ((ok value) ...)
    A second case shape carries concurrent scenarios, see check_concurrent. *)
@@ -198,14 +199,21 @@ Definition ref_step_guarded (st : rst) (eo : event * (Z * Z * bool)) : rst :=
   else mkR (slots st') (all_ids st') (all_leases st') (steps st') false
            (q1 st) (q2 st) (q3 st) (q5 st) (q6 st).
 
+(* outcome kind 6: the call never returned (the harness found its goroutine parked on the
+   generator's mutex with nobody inside Next).  The model's Init / Next always return, and
+   "generation resumes correctly once the store recovers" forbids it under any premise. *)
+Definition all_returned (obs : list (Z * Z * bool)) : bool :=
+  forallb (fun o => let '(k, _, _) := o in negb (k =? 6)) obs.
+
 Definition prop (h : list event) (obs : list (Z * Z * bool)) : verdict :=
   let st := fold_left ref_step_guarded (combine h obs)
                       (mkR [] [] [] [] true true true true true true) in
-  vjoin (check_that (q1 st) (VPropFail 1))
+  vjoin (check_that (all_returned obs) (VPropFail 8))
+ (vjoin (check_that (q1 st) (VPropFail 1))
  (vjoin (check_that (q2 st) (VPropFail 2))
  (vjoin (check_that (q3 st) (VPropFail 3))
  (vjoin (check_that (q5 st) (VPropFail 5))
-        (check_that (q6 st) (VPropFail 6))))).
+        (check_that (q6 st) (VPropFail 6)))))).
 
 (* the adapter guard: on non-zero raw counters the accepted values strictly increase *)
 Fixpoint increasing_from (last : option Z) (l : list (option Z)) : bool :=
